@@ -72,7 +72,8 @@ def run_visibility(case):
     _, seed, i = case
     rng = common.rng_for(seed, PROP, "vis", i)
     # three modules: a imports b, b imports c
-    c_src = "pub fn c_pub() -> i32\n{\n\treturn: 3\n}\n\npub const C_PUB: i32 = 30;\n\npub struct CPub\n{\n\tv: i32,\n}\n"
+    c_src = ("pub fn c_pub() -> i32\n{\n\treturn: 3\n}\n\npub const C_PUB: i32 = 30;\n\npub struct CPub\n{\n\tv: i32,\n}\n\n"
+             "pub extern fn abs(x: i32) -> i32;\n")
     b_src = ("import \"c.pn\";\n\npub fn b_pub() -> i32\n{\n\treturn: c_pub() + b_secret() + B_SECRET + C_PUB\n}\n\n"
              "fn b_secret() -> i32\n{\n\treturn: 7\n}\n\nconst B_SECRET: i32 = 70;\n\nstruct BSecret\n{\n\tv: i32,\n}\n\n"
              "pub const B_PUB: i32 = 5;\n\npub struct BPub\n{\n\tv: i32,\n}\n")
@@ -87,13 +88,20 @@ def run_visibility(case):
         "transitive_function": ("\tvar x: i32 = c_pub();", {401}),
         "transitive_constant": ("\tvar x: i32 = C_PUB;", {402}),
         "transitive_structure": ("\tvar s = CPub { v: 1 };\n\tvar x: i32 = s.v;", {405}),
+        # a body-less public function head (the style of vendor/libc) is an item like any other
+        "transitive_function_head": ("\tvar x: i32 = abs(-4);", {401}),
+        # diamond: a imports b and c, b imports c; everything c exports is usable once
+        "ok_diamond": ("\tvar x: i32 = b_pub() + c_pub() + C_PUB + abs(-4);", "diamond"),
     }
     name = sorted(probes)[i % len(probes)]
     body, want = probes[name]
     a_src = "import \"b.pn\";\n\nfn main() -> i32\n{\n%s\n\treturn: x\n}\n" % body
+    if want == "diamond":
+        a_src = "import \"c.pn\";\n" + a_src
+        want = None
     files = [("a.pn", a_src), ("b.pn", b_src), ("c.pn", c_src)]
-    order = list(range(3))
-    rng.shuffle(order)
+    # every probe in every file order (6) once per 6 * len(probes) cases
+    order = list(list(itertools.permutations(range(3)))[(i // len(probes)) % 6])
     fs = [files[j] for j in order]
     st, res, _ir = outcome(fs)
     replay = {"files": fs, "probe": name}
@@ -257,7 +265,7 @@ def main(tier, seed, replay=None):
     run = common.Run(PROP, tier, seed)
     q = tier == "quick"
     cases = [("split", seed, i) for i in range(400 if q else 8000)]
-    cases += [("vis", seed, i) for i in range(40 if q else 600)]
+    cases += [("vis", seed, i) for i in range(72 if q else 720)]
     cases += [("hist", seed, i) for i in range(250 if q else 6000)]
     cases += [("memcheck", seed, i) for i in range(16 if q else 320)]
     common.ensure_worker("rel")
